@@ -125,7 +125,7 @@ theorem hijack_stops_io : quiet (runConn sd base items) = true :=
 
 /-! Non-vacuity: a concrete connection in which the hypotheses above are met. -/
 example : at? false 0 {} 0 [.x false .pass .pass (.ok 200 false), .x false (.errSkip .eof) (.err .timeout) (.ok 200 false),
-    .x false .hijack .pass .fail] 1 = some ({}, .x false (.errSkip .eof) (.err .timeout) (.ok 200 false)) := by decide
+    .x false .hijack .pass .fail] 1 = some ({ stored := 1 }, .x false (.errSkip .eof) (.err .timeout) (.ok 200 false)) := by decide
 example : countP (isRead 2) (runConn false 0 [.x false .pass .pass (.ok 200 false), .x false (.errSkip .eof) (.err .timeout) (.ok 200 false),
     .x false .hijack .pass .fail]) = 1 := by decide
 example : countP (isResmod 2) (runConn false 0 [.x false .pass .pass (.ok 200 false), .x false (.errSkip .eof) (.err .timeout) (.ok 200 false),
